@@ -96,7 +96,7 @@ C4(pre, fmtv, post) ==
   /\ \A y \in Comments(post.lines) : \E x \in Comments(pre.lines) : pre.lines[x].v = post.lines[y].v
 \* continuation lines indented by exactly the requested width
 C5(set, post) ==
-  \A i \in 1..Len(post.lines) : post.lines[i].k = "C" =>
+  set.wp => \A i \in 1..Len(post.lines) : post.lines[i].k = "C" =>
      post.lines[i].ind = (IF set.fnl THEN post.lines[PrevField(post.lines, i)].klen ELSE set.ind)
 \* exactly one blank line between paragraphs, none elsewhere
 C6(post) ==
